@@ -22,6 +22,7 @@ func (x *Exec) run(st *State, b *ssa.BasicBlock) {
 			// back edge: invariant preserved, variant decreased; path ends
 			x.checkInvariants(st, l, "preserved")
 			x.checkLoopFrame(st, l)
+			x.checkLoopEnsures(st, l)
 			if dec := x.ct.loopDec(l.Ordinal); dec != nil {
 				nv, ok := x.evalSpec(st, dec.Expr, "inv")
 				if ok && st.variantAt[l] != nil {
@@ -33,10 +34,22 @@ func (x *Exec) run(st *State, b *ssa.BasicBlock) {
 			return
 		}
 		// loop entry
+		if x.ct != nil {
+			if st.loopEntry == nil {
+				st.loopEntry = map[*Loop]*State{}
+			}
+			st.loopEntry[l] = st.clone()
+		}
 		x.checkInvariants(st, l, "established")
 		x.havocLoop(st, l)
 		x.assumeInvariants(st, l)
 		st.inLoop[l] = true
+		if x.ct != nil {
+			if st.iterHead == nil {
+				st.iterHead = map[*Loop]*State{}
+			}
+			st.iterHead[l] = st.clone()
+		}
 		if dec := x.ct.loopDec(l.Ordinal); dec != nil {
 			if v, ok := x.evalSpec(st, dec.Expr, "inv"); ok {
 				st.variantAt[l] = v
@@ -81,6 +94,30 @@ func (x *Exec) checkInvariants(st *State, l *Loop, what string) {
 		_ = cp
 		x.oblige(st, "inv", fmt.Sprintf("#%d:%s:%s", l.Ordinal, label, what), t, l.Head.Instrs[0].Pos(),
 			"loop invariant "+what+": "+inv.Text)
+	}
+}
+
+// checkLoopEnsures: per-iteration postconditions (loop N ensures ...), relating the state at
+// the back edge to the state at the head of the same iteration (iter(e)).
+func (x *Exec) checkLoopEnsures(st *State, l *Loop) {
+	if x.ct == nil {
+		return
+	}
+	for i, cl := range x.ct.LoopEns[l.Ordinal] {
+		if len(cl.Props) > 0 && x.prop != "" && !hasProp(cl.Props, x.prop) {
+			continue
+		}
+		x.curLoop = l
+		t, ok := x.evalSpec(st, cl.Expr, "inv")
+		x.curLoop = nil
+		if !ok {
+			continue
+		}
+		label := cl.Label
+		if label == "" {
+			label = fmt.Sprint(i + 1)
+		}
+		x.oblige(st.clone(), "iter", fmt.Sprintf("#%d:%s", l.Ordinal, label), t, l.Head.Instrs[0].Pos(), "per-iteration postcondition: "+cl.Text)
 	}
 }
 
@@ -554,6 +591,10 @@ func (x *Exec) doUnOp(st *State, u *ssa.UnOp) {
 				x.nilCheck(st, u, xv.T, "pointer in load")
 			}
 			v := x.load(st, a)
+			if a.Root == rElem && a.SlOff != nil && len(a.Path) == 0 {
+				// name the element through the slice-element function too (trigger for quantified facts)
+				sgetTerm(st, Select(st.heapArr(a.Key, heapSorts[a.Key]), a.Base), a.SlOff, a.SlIdx)
+			}
 			if a.Root != rCell {
 				x.enterFacts(st, v, et)
 				// a value read from a heap array that is unchanged since entry existed at entry
@@ -946,7 +987,8 @@ func (x *Exec) doIndexAddr(st *State, ia *ssa.IndexAddr) {
 		}
 		x.boundsCheck(st, ia, idx, sliceAcc(sv, 2), "slice")
 		k := regHeap("E$"+sortNameOfType(u.Elem()), ArrSort(SInt, ArrSort(SInt, sortOfStatic(u.Elem()))))
-		st.regs[ia] = Val{Addr: &Addr{Root: rElem, Key: k, Base: sliceAcc(sv, 0), Idx: Add(sliceAcc(sv, 1), idx), Ty: u.Elem()}}
+		st.regs[ia] = Val{Addr: &Addr{Root: rElem, Key: k, Base: sliceAcc(sv, 0), Idx: Add(sliceAcc(sv, 1), idx), Ty: u.Elem(),
+			SlOff: sliceAcc(sv, 1), SlIdx: idx}}
 	default:
 		x.unsupported(fmt.Sprintf("IndexAddr on %s", ia.X.Type()))
 		st.regs[ia] = Val{T: x.freshVar("idxaddr", SInt)}
@@ -1237,8 +1279,58 @@ func Forall(vars []*Term, body *Term) *Term {
 		fmt.Fprintf(&sb, "(%s %s)", v.Val, v.Sort)
 	}
 	sb.WriteString(") ")
+	// explicit triggers: applications of the slice-element function that mention every bound
+	// variable (arithmetic inside inferred triggers defeats E-matching)
+	var pats []string
+	seen := map[string]bool{}
+	var walk func(t *Term)
+	walk = func(t *Term) {
+		if strings.HasPrefix(t.Op, "sget!") {
+			k := t.Key()
+			all := true
+			for _, v := range vars {
+				if !strings.Contains(k, v.Val) {
+					all = false
+				}
+			}
+			if all && !seen[k] {
+				seen[k] = true
+				pats = append(pats, k)
+			}
+		}
+		if t.Op == "forall" {
+			return
+		}
+		for _, a := range t.Args {
+			walk(a)
+		}
+	}
+	walk(body)
 	t := &Term{Op: "forall", Args: append(append([]*Term{}, vars...), body), Sort: SBool}
-	t.key = sb.String() + body.Key() + ")"
+	if len(pats) > 0 {
+		var ps strings.Builder
+		for _, p := range pats {
+			ps.WriteString(" :pattern (" + p + ")")
+		}
+		t.key = sb.String() + "(! " + body.Key() + ps.String() + "))"
+	} else {
+		t.key = sb.String() + body.Key() + ")"
+	}
+	return t
+}
+
+// sget: element i of a slice (array, offset) as an uninterpreted function with the defining
+// axiom sget(a, o, i) = a[o+i]; quantified contract clauses index slices through it.
+func sgetTerm(st *State, inner, off, idx *Term) *Term {
+	name := "sget!" + sanitize(string(inner.Sort))
+	if _, ok := theU.funcs[name]; !ok {
+		theU.DeclFunc(name, inner.Sort.ArrElem(), inner.Sort, SInt, SInt)
+		theU.funcAxioms[name] = fmt.Sprintf("(assert (forall ((a %s) (o Int) (i Int)) (! (= (%s a o i) (select a (+ o i))) :pattern ((%s a o i)))))\n", inner.Sort, name, name)
+	}
+	t := App(name, inner.Sort.ArrElem(), inner, off, idx)
+	if !strings.Contains(idx.Key(), "bv!") && !strings.Contains(inner.Key(), "bv!") {
+		st.add(Eq(t, Select(inner, Add(off, idx))))
+	}
 	return t
 }
 
